@@ -13,11 +13,16 @@
 //	stream  the reader goroutine on arbitrary frame sequences (scripted conn)
 //	send    the sender goroutine at sendLimit-1 / sendLimit / sendLimit+1
 //	ws      websocket peers over an in-memory connection pair, three serializers
-//	attach  smoke test of harness/tpeers against a real router
-//	f18     probe: can a PONG be written between a frame's header and payload?
+//	attach  the same scenario through every transport of harness/tpeers against a real
+//	        router, GOODBYE reply included (regression: the reply used to be lost
+//	        when Close won the race against the sender goroutine)
+//	drain   messages queued on a peer just before Close() all reach the other side
+//	f18     regression: a PONG can no longer be written inside a frame of the sender, nor a
+//	        frame of the sender inside a PONG (each frame is one Write call)
 package main
 
 import (
+	"bufio"
 	"encoding/hex"
 	"encoding/json"
 	"flag"
@@ -25,6 +30,7 @@ import (
 	"io"
 	"log"
 	"os"
+	"os/exec"
 	"sort"
 	"strings"
 	"time"
@@ -40,7 +46,7 @@ var (
 	flagReplay   = flag.String("replay", "", "replay file (a disagreement input, or a bin/check replay file)")
 	flagOnly     = flag.String("only", "", "comma separated sections to run (default all)")
 	flagStreams  = flag.Int("streams", 300, "number of random frame streams per serializer")
-	flagF18      = flag.Bool("report-f18", false, "report the header/PONG interleaving (finding F18) as a disagreement")
+	flagRounds   = flag.Int("rounds", 25, "repetitions of the racy regression checks (attach, drain)")
 
 	sum      hcommon.Summary
 	distinct = map[string]bool{}
@@ -87,16 +93,56 @@ func guard(class string, input any, f func()) {
 	f()
 }
 
+// The Lean model driver is started once and answers line by line.
+var drv struct {
+	cmd *exec.Cmd
+	in  io.WriteCloser
+	out *bufio.Reader
+}
+
+func driverFail(err error) {
+	fmt.Fprintf(os.Stderr, "frames: lean driver failed: %v\n", err)
+	os.Exit(2)
+}
+
 func driver(lines []string) []string {
 	if len(lines) == 0 {
 		return nil
 	}
-	outl, err := hcommon.RunDriver("frame", lines)
-	if err != nil || len(outl) != len(lines) {
-		fmt.Fprintf(os.Stderr, "frames: lean driver failed: %v (%d lines for %d inputs)\n", err, len(outl), len(lines))
-		os.Exit(2)
+	if drv.cmd == nil {
+		drv.cmd = exec.Command(hcommon.DriverPath(), "frame")
+		drv.cmd.Stderr = os.Stderr
+		var err error
+		if drv.in, err = drv.cmd.StdinPipe(); err != nil {
+			driverFail(err)
+		}
+		o, err := drv.cmd.StdoutPipe()
+		if err != nil {
+			driverFail(err)
+		}
+		drv.out = bufio.NewReaderSize(o, 1<<20)
+		if err := drv.cmd.Start(); err != nil {
+			driverFail(err)
+		}
 	}
-	return outl
+	res := make([]string, 0, len(lines))
+	// write in a goroutine: the driver answers while we are still writing
+	werr := make(chan error, 1)
+	go func() {
+		_, err := io.WriteString(drv.in, strings.Join(lines, "\n")+"\n")
+		werr <- err
+	}()
+	for range lines {
+		l, err := drv.out.ReadString('\n')
+		if err != nil {
+			driverFail(fmt.Errorf("after %d of %d answers: %v", len(res), len(lines), err))
+		}
+		res = append(res, strings.TrimRight(l, "\n"))
+	}
+	if err := <-werr; err != nil {
+		driverFail(err)
+	}
+	return res
 }
 
 // kv parses "a=b c=d msg=rest of line".
@@ -207,7 +253,7 @@ func main() {
 			run  func(*hcommon.RNG)
 		}{
 			{"shake", runShake}, {"chs", runClientShake}, {"stream", runStreams}, {"send", runSend},
-			{"ws", runWebsocket}, {"attach", runAttach}, {"f18", runF18},
+			{"ws", runWebsocket}, {"attach", runAttach}, {"drain", runDrain}, {"f18", runF18},
 		}
 		for _, s := range sections {
 			if !want(s.name) {
@@ -223,7 +269,8 @@ func main() {
 	sum.DistinctNontrivial = len(distinct)
 	sum.Rule = "distinct case signatures: handshake = request class (magic, reserved bytes, both nibbles) x limit configuration; " +
 		"client handshake = protocol x limit x reply class; stream = serializer x limit x sequence of (frame kind, length class) x cut class; " +
-		"send = serializer x limit nibble x size class; ws = serializer x direction x item kinds"
+		"send = serializer x limit nibble x size class; ws = serializer x direction x item kinds; " +
+		"attach/drain = transport x serializer (x queue shape); f18 = scenario"
 	sort.Strings(sum.Notes)
 	sum.Notes = append(sum.Notes, fmt.Sprintf("total %.1fs", time.Since(t0).Seconds()))
 	if err := sum.Write(*flagOut); err != nil {
